@@ -255,6 +255,9 @@ pub struct World {
     pub hard_cap_hit: bool,
     pub max_groups: usize,
     pub max_cap: usize,
+    /// ordered subjects: largest number of accepted-but-not-yet-yielded children seen so far
+    /// (a poll may hand out a parked output without polling any child)
+    pub max_owed: usize,
     pub up_plans: Vec<Plan>,
     pub epoch: u32,
     pub active: bool,
@@ -311,6 +314,7 @@ impl World {
             hard_cap_hit: false,
             max_groups: 1,
             max_cap: 0,
+            max_owed: 0,
             up_plans: Vec::new(),
             epoch: 0,
             active: false,
